@@ -26,6 +26,8 @@ import (
 
 	"github.com/cloudwego/eino/components/model"
 	"github.com/cloudwego/eino/components/tool"
+	"github.com/cloudwego/eino/compose"
+	"github.com/cloudwego/eino/flow/agent"
 	"github.com/cloudwego/eino/schema"
 )
 
@@ -174,8 +176,9 @@ type vaLegacyModel struct{ vaModel }
 func (m *vaLegacyModel) BindTools([]*schema.ToolInfo) error { return nil }
 
 type vaTool struct {
-	rec  *vaRec
-	name string
+	rec    *vaRec
+	name   string
+	prefix string // "alt:" for the tool set a caller passes per call (same names, observably different answers)
 }
 
 func (t *vaTool) Info(context.Context) (*schema.ToolInfo, error) {
@@ -183,7 +186,7 @@ func (t *vaTool) Info(context.Context) (*schema.ToolInfo, error) {
 }
 
 func (t *vaTool) InvokableRun(ctx context.Context, args string, _ ...tool.Option) (string, error) {
-	out := t.name + "(" + args + ")"
+	out := t.prefix + t.name + "(" + args + ")"
 	key, _ := ctx.Value(vaKey{}).(string)
 	t.rec.add(ctx, vaLine("tool", "name", t.name, "args", args, "out", out, "ctx", key, "tags", vaTags(args)))
 	return out, nil
@@ -197,6 +200,7 @@ type vaVariant struct {
 	modifier bool
 	legacy   bool
 	shared   bool // the callers of a round pass the SAME input slice (len 1, cap 8) with the same user message
+	toollist bool // callers with an even number pass their own tool set per call (WithToolList); one more round without any option follows
 }
 
 // what the caller finds in its input slice afterwards: first element, and the cells of the backing array beyond its length
@@ -224,8 +228,8 @@ func TestVerifAgentConc(t *testing.T) {
 		t.Skip("VERIF_OUT not set")
 	}
 	callers, rounds := vaEnvInt("VERIF_CALLERS", 4), vaEnvInt("VERIF_ROUNDS", 12)
-	variants := []vaVariant{{"plain", false, false, false, false}, {"rd", true, false, false, false}, {"mod", false, true, true, false},
-		{"rdmod", true, true, false, false}, {"shared", true, false, false, true}}
+	variants := []vaVariant{{"plain", false, false, false, false, false}, {"rd", true, false, false, false, false}, {"mod", false, true, true, false, false},
+		{"rdmod", true, true, false, false, false}, {"shared", true, false, false, true, false}, {"toollist", true, false, false, false, true}}
 	ctx0 := context.Background()
 	var lines []string
 	ncases := 0
@@ -237,7 +241,13 @@ func TestVerifAgentConc(t *testing.T) {
 		} else {
 			conf.ToolCallingModel = &vaModel{rec}
 		}
-		conf.ToolsConfig.Tools = []tool.BaseTool{&vaTool{rec, "t"}, &vaTool{rec, "trd"}}
+		conf.ToolsConfig.Tools = []tool.BaseTool{&vaTool{rec, "t", ""}, &vaTool{rec, "trd", ""}}
+		altOpt := agent.WithComposeOptions(compose.WithToolsNodeOption(compose.WithToolList(&vaTool{rec, "t", "alt:"}, &vaTool{rec, "trd", "alt:"})))
+		vrounds := rounds
+		if v.toollist {
+			vrounds = rounds + 1 // the last round: plain calls after the calls with the option
+		}
+		isAlt := func(k, r int) bool { return v.toollist && k%2 == 0 && r <= rounds }
 		if v.rd {
 			conf.ToolReturnDirectly = map[string]struct{}{"trd": {}}
 		}
@@ -267,7 +277,7 @@ func TestVerifAgentConc(t *testing.T) {
 			}
 			return
 		}
-		for r := 1; r <= rounds; r++ {
+		for r := 1; r <= vrounds; r++ {
 			var start, done sync.WaitGroup
 			start.Add(1)
 			var sharedIn []*schema.Message
@@ -292,7 +302,11 @@ func TestVerifAgentConc(t *testing.T) {
 						if v.shared {
 							ctx = context.WithValue(ctx, vaPlanKey{}, vaPlan{tag, n, d})
 						}
-						res[ci] = vaCall(ctx, ag, mode, input)
+						if isAlt(k, r) {
+							res[ci] = vaCall(ctx, ag, mode, input, altOpt)
+						} else {
+							res[ci] = vaCall(ctx, ag, mode, input)
+						}
 					}
 					rmu.Lock()
 					results[tag] = res
@@ -313,11 +327,11 @@ func TestVerifAgentConc(t *testing.T) {
 			}
 		}
 		// per-call projection, one case per (variant, caller, round)
-		for r := 1; r <= rounds; r++ {
+		for r := 1; r <= vrounds; r++ {
 			for k := 1; k <= callers; k++ {
 				tag, n, d, modes, user := plan(k, r)
 				lines = append(lines, vaLine("case", "id", "react/"+v.name+"/"+tag, "agent", "react", "variant", v.name, "tag", tag, "user", user, "n", n, "d", d,
-					"w", 0, "modifier", v.modifier, "rd", v.rd, "callers", callers))
+					"w", 0, "modifier", v.modifier, "alt", isAlt(k, r), "rd", v.rd, "callers", callers))
 				for ci, mode := range modes {
 					lines = append(lines, vaLine("call", "mode", mode))
 					lines = append(lines, rec.events[tag+"#"+mode]...)
@@ -329,7 +343,7 @@ func TestVerifAgentConc(t *testing.T) {
 		}
 		if len(rec.orphan) > 0 {
 			lines = append(lines, vaLine("case", "id", "react/"+v.name+"/orphans", "agent", "react", "variant", v.name, "tag", "", "user", "", "n", 0, "d", 0,
-				"w", 0, "modifier", v.modifier, "rd", v.rd, "callers", callers))
+				"w", 0, "modifier", v.modifier, "alt", false, "rd", v.rd, "callers", callers))
 			for _, l := range rec.orphan {
 				lines = append(lines, vaLine("orphan", "line", l))
 			}
@@ -350,7 +364,7 @@ func TestVerifAgentConc(t *testing.T) {
 	fmt.Printf("VERIF-AGENTCONC cases=%d callers=%d rounds=%d\n", ncases, callers, rounds)
 }
 
-func vaCall(ctx context.Context, ag *Agent, mode string, input []*schema.Message) (line string) {
+func vaCall(ctx context.Context, ag *Agent, mode string, input []*schema.Message, opts ...agent.AgentOption) (line string) {
 	defer func() {
 		if p := recover(); p != nil {
 			s := fmt.Sprint(p)
@@ -368,14 +382,14 @@ func vaCall(ctx context.Context, ag *Agent, mode string, input []*schema.Message
 		return vaLine("error", "text", s)
 	}
 	if mode == "generate" {
-		m, err := ag.Generate(ctx, input)
+		m, err := ag.Generate(ctx, input, opts...)
 		if err != nil {
 			return fail(err)
 		}
 		r := vaRender(m)
 		return vaLine("answer", "msg", r, "tags", vaTags(vaJSON(r)))
 	}
-	sr, err := ag.Stream(ctx, input)
+	sr, err := ag.Stream(ctx, input, opts...)
 	if err != nil {
 		return fail(err)
 	}
